@@ -167,6 +167,11 @@ bool QXmppMamManager::handleStanza(const QDomElement &element)
             return true;
         }
     } else if (QXmppMamResultIq::isMamResultIq(element)) {
+        // only responses are handled here; requests get the default error reply
+        if (const auto type = element.attribute(u"type"_s); type == u"get" || type == u"set") {
+            return false;
+        }
+
         QXmppMamResultIq result;
         result.parse(element);
         Q_EMIT resultsRecieved(result.id(), result.resultSetReply(), result.complete());
